@@ -441,3 +441,4 @@ def run(chk, repo):
 
 # added rules (appended to the explanation the evidence file carries)
 EXPLANATION += (" " + 'Added during the build (DESIGN.md 4.31, second table): (R20.8) map_fmmu by abstract execution on all slot tables of 1-4 FMMUs over {free, owner 0, owner x}: a free slot is claimed, held while mapped, restored afterwards, its own register block written - or the mapping fails.')
+EXPLANATION += (' Added after wave 9: (R20.9) the FMMU registers are written by initialize() and map_fmmu() only.')
